@@ -6,10 +6,16 @@
    receiver  Broker.inboundDeliveryQueue (inq), the delivery popped by doNextCall whose ready_deferred has
              not fired (waiting, flag _waiting_for_call_to_be_ready), foolscap.eventual's queue (evq)
 
+   loss      Broker.finish on the receiver (lost; the queued deliveries are dropped), after which doNextCall returns at once
+   gifts     the Deferred network that makes a delivery ready: TheirReferenceUnslicer (obj_deferred, ready_deferred),
+             ArgumentUnslicer.num_unreferenceable_children / _all_children_are_referenceable_d, AsyncAND of the
+             arguments, AsyncAND of the call -- the step functions and_cb / update_child / args_close_* are translated
+             statement by statement from util.py and call.py (gen/OrderGen.v)
+
    Every queue discipline comes from gen/OrderGen.v, i.e. from the AST of the current source:
    sendq_push/sendq_pop/send_idle_before_enqueue (slicers/root.py), inq_push/inq_pop/head_of_line (broker.py),
    evq_push/evq_iter (eventual.py).  The wire is FIFO by assumption (TCP / the test transports). *)
-From Coq Require Import List Bool Arith.
+From Coq Require Import List Bool Arith ZArith.
 Import ListNotations.
 Require Import Verif.gen.OrderGen.
 
@@ -26,15 +32,64 @@ Definition q_take {A} (p : pop_end) (l : list A) : option (A * list A) :=
 (* ---- calls *)
 Inductive fate :=
   | FPlain          (* arguments accepted, ready on arrival *)
-  | FGift           (* carries a third-party reference: ready_deferred unresolved on arrival *)
+  | FGift (n : nat) (* carries n third-party references, none resolved on arrival (n = 0: ready on arrival) *)
   | FRejectEarly    (* refused while being received (schema Violation on a token, or ABORTed by the sender): never queued *)
   | FRejectLate.    (* refused by checkAllArgs in _doCall, when its turn comes *)
 
 Record call := { cid : nat; stalls : nat; cfate : fate }.
 
-Inductive rdy := Ready | Pending | Broken.      (* state of the delivery's ready_deferred *)
 Inductive thunk := TDoNext.                     (* eventually(self.doNextCall) *)
 Inductive event := Queued (c : nat) | Rejected (c : nat) | Entered (c : nat) | Failed (c : nat).
+
+(* ---- the Deferred network of one delivery that carries third-party references.
+   nunref   ArgumentUnslicer.num_unreferenceable_children
+   has_all  ArgumentUnslicer._all_children_are_referenceable_d exists (created by receiveClose when nunref <> 0)
+   r1/f1    AsyncAND of the arguments ([all-children-referenceable] ++ the gifts' ready_deferreds): remaining, _fired
+   r2/f2    AsyncAND of the call (CallUnslicer._ready_deferreds = [the arguments' AsyncAND])
+   out      how the delivery's ready_deferred fired (Some true: callback, Some false: errback), None while it has not
+   left     third-party references not yet resolved or failed
+   and_cb, update_child, args_close_has_all, args_close_dl_len, call_close_has_and, and_init are generated from
+   util.py AsyncAND / call.py ArgumentUnslicer, CallUnslicer on every run. *)
+Record gnet := gmk { g_nunref : Z; g_has_all : bool; g_r1 : Z; g_f1 : bool; g_r2 : Z; g_f2 : bool;
+                     g_out : option bool; g_left : nat }.
+
+Definition and_st := (Z * bool)%type.
+
+(* one component Deferred of an AsyncAND fires; `fire` = what the AsyncAND itself has fired so far in this chain *)
+Definition and_apply (st : and_st) (fire : option bool) (succeeded : bool) : and_st * option bool :=
+  match and_cb (fst st) (snd st) succeeded with
+  | (r, f, o) => ((r, f), match fire with Some x => Some x | None => o end)
+  end.
+
+(* ArgumentUnslicer.receiveClose then CallUnslicer.receiveClose for a call with n unresolved gifts (n >= 1):
+   every gift contributed one Deferred argument (nunref = n) and one ready_deferred *)
+Definition gnet_init (n : nat) : gnet :=
+  let nun := Z.of_nat n in
+  gmk nun (args_close_has_all nun)
+      (fst (and_init (args_close_dl_len nun (Z.of_nat n)))) (snd (and_init (args_close_dl_len nun (Z.of_nat n))))
+      (fst (and_init 1%Z)) (snd (and_init 1%Z)) None n.
+
+(* TheirReferenceUnslicer: Tub.getReference fired.  _ready: obj_deferred.callback (-> ArgumentUnslicer.updateChild, which
+   may fire _all_children_are_referenceable_d -> the arguments' AsyncAND), then ready_deferred.callback (-> the arguments'
+   AsyncAND); _failed: obj_deferred.callback(placeholder) likewise, then ready_deferred.errback.  When the arguments'
+   AsyncAND fires, the call's AsyncAND gets that outcome, and when that one fires the delivery's ready_deferred does. *)
+Definition gift_fire (ok : bool) (g : gnet) : gnet :=
+  match update_child (g_nunref g) (g_has_all g) with
+  | (nun, fire_all) =>
+    let s0 : and_st * option bool := ((g_r1 g, g_f1 g), None) in
+    let s1 := if fire_all then and_apply (fst s0) (snd s0) true else s0 in
+    let s1 := and_apply (fst s1) (snd s1) ok in
+    let s2 : and_st * option bool :=
+        match snd s1 with Some r => and_apply (g_r2 g, g_f2 g) None r | None => ((g_r2 g, g_f2 g), None) end in
+    gmk nun (g_has_all g) (fst (fst s1)) (snd (fst s1)) (fst (fst s2)) (snd (fst s2))
+        (match g_out g with Some x => Some x | None => snd s2 end) (pred (g_left g))
+  end.
+
+Fixpoint gifts_run (rs : list bool) (g : gnet) : gnet :=
+  match rs with [] => g | r :: rest => gifts_run rest (gift_fire r g) end.
+
+(* state of the delivery's ready_deferred: fired, failed, or still depending on the network g *)
+Inductive rdy := Ready | Pending (g : gnet) | Broken.
 
 Record state := mk {
   next_id : nat;                  (* number of calls issued so far = id of the next one *)
@@ -42,12 +97,14 @@ Record state := mk {
   cur : option (call * nat);      (* call being serialized, number of Deferreds it will still wait for (>= 1) *)
   wire : list call;
   inq : list (call * rdy);
-  waiting : list call;
+  waiting : list (call * gnet);
   evq : list thunk;
-  trace : list event              (* newest first *)
+  trace : list event;             (* newest first *)
+  lost : bool;                    (* the receiver's Broker.disconnected (Broker.finish has run) *)
+  dropped : list call             (* deliveries that were queued when the connection was lost: they never run *)
 }.
 
-Definition init : state := mk 0 [] None [] [] [] [] [].
+Definition init : state := mk 0 [] None [] [] [] [] [] false [].
 
 Definition is_none {A} (o : option A) : bool := match o with None => true | Some _ => false end.
 Definition is_nil {A} (l : list A) : bool := match l with [] => true | _ => false end.
@@ -65,8 +122,8 @@ Fixpoint pump (fuel : nat) (s : state) : state :=
       | None => s
       | Some (c, rest) =>
         match stalls c with
-        | 0 => pump f (mk (next_id s) rest None (wire s ++ [c]) (inq s) (waiting s) (evq s) (trace s))
-        | S _ => mk (next_id s) rest (Some (c, stalls c)) (wire s) (inq s) (waiting s) (evq s) (trace s)
+        | 0 => pump f (mk (next_id s) rest None (wire s ++ [c]) (inq s) (waiting s) (evq s) (trace s) (lost s) (dropped s))
+        | S _ => mk (next_id s) rest (Some (c, stalls c)) (wire s) (inq s) (waiting s) (evq s) (trace s) (lost s) (dropped s)
         end
       end
     end
@@ -77,30 +134,33 @@ Definition issue (st : nat) (f : fate) (s : state) : state :=
   let c := {| cid := next_id s; stalls := st; cfate := f |} in
   let q := q_put sendq_push c (sendq s) in
   let idle := is_none (cur s) && is_nil (if send_idle_before_enqueue then sendq s else q) in
-  let s1 := mk (S (next_id s)) q (cur s) (wire s) (inq s) (waiting s) (evq s) (trace s) in
+  let s1 := mk (S (next_id s)) q (cur s) (wire s) (inq s) (waiting s) (evq s) (trace s) (lost s) (dropped s) in
   if idle then pump (S (List.length q)) s1 else s1.
 
 (* the Deferred on which produce() is paused fires *)
 Definition release (s : state) : state :=
   match cur s with
   | None => s
-  | Some (c, S (S m)) => mk (next_id s) (sendq s) (Some (c, S m)) (wire s) (inq s) (waiting s) (evq s) (trace s)
+  | Some (c, S (S m)) => mk (next_id s) (sendq s) (Some (c, S m)) (wire s) (inq s) (waiting s) (evq s) (trace s) (lost s) (dropped s)
   | Some (c, _) =>
     pump (S (List.length (sendq s)))
-         (mk (next_id s) (sendq s) None (wire s ++ [c]) (inq s) (waiting s) (evq s) (trace s))
+         (mk (next_id s) (sendq s) None (wire s ++ [c]) (inq s) (waiting s) (evq s) (trace s) (lost s) (dropped s))
   end.
 
 (* the last byte of the oldest serialized call reaches the receiver: CallUnslicer.receiveClose ->
    PBRootUnslicer.receiveChild -> Broker.scheduleCall *)
+Definition rdy_on_arrival (f : fate) : rdy := match f with FGift (S n) => Pending (gnet_init (S n)) | _ => Ready end.
+
 Definition deliver (s : state) : state :=
+  if lost s then s else       (* nothing reaches a Broker after its connectionLost *)
   match wire s with
   | [] => s
   | c :: w =>
     match cfate c with
-    | FRejectEarly => mk (next_id s) (sendq s) (cur s) w (inq s) (waiting s) (evq s) (Rejected (cid c) :: trace s)
+    | FRejectEarly => mk (next_id s) (sendq s) (cur s) w (inq s) (waiting s) (evq s) (Rejected (cid c) :: trace s) (lost s) (dropped s)
     | f => mk (next_id s) (sendq s) (cur s) w
-              (q_put inq_push (c, match f with FGift => Pending | _ => Ready end) (inq s))
-              (waiting s) (q_put evq_push TDoNext (evq s)) (Queued (cid c) :: trace s)
+              (q_put inq_push (c, rdy_on_arrival f) (inq s))
+              (waiting s) (q_put evq_push TDoNext (evq s)) (Queued (cid c) :: trace s) (lost s) (dropped s)
     end
   end.
 
@@ -110,47 +170,74 @@ Definition is_late (c : call) : bool := match cfate c with FRejectLate => true |
    arguments and gives control to the method, or the failure goes to callFailed *)
 Definition finish_call (c : call) (ok : bool) (s : state) : state :=
   mk (next_id s) (sendq s) (cur s) (wire s) (inq s) (waiting s) (q_put evq_push TDoNext (evq s))
-     ((if ok && negb (is_late c) then Entered (cid c) else Failed (cid c)) :: trace s).
+     ((if ok && negb (is_late c) then Entered (cid c) else Failed (cid c)) :: trace s) (lost s) (dropped s).
 
 Definition blocked (s : state) : bool :=
   match head_of_line with HolBlocking => negb (is_nil (waiting s)) | HolNone => false end.
 
 Definition do_next (s : state) : state :=
+  if checks_disconnected && lost s then s else      (* `if self.disconnected: return` *)
   if blocked s then s else
   match q_take inq_pop (inq s) with
   | None => s
   | Some ((c, r), rest) =>
-    let s1 := mk (next_id s) (sendq s) (cur s) (wire s) rest (waiting s) (evq s) (trace s) in
+    let s1 := mk (next_id s) (sendq s) (cur s) (wire s) rest (waiting s) (evq s) (trace s) (lost s) (dropped s) in
     match r with
     | Ready => finish_call c true s1
     | Broken => finish_call c false s1
-    | Pending => mk (next_id s) (sendq s) (cur s) (wire s) rest (waiting s ++ [c]) (evq s) (trace s)
+    | Pending g => mk (next_id s) (sendq s) (cur s) (wire s) rest (waiting s ++ [(c, g)]) (evq s) (trace s) (lost s) (dropped s)
     end
   end.
 
-Definition is_pending (r : rdy) : bool := match r with Pending => true | _ => false end.
+(* one third-party reference of a delivery resolves: its network takes a step; when the network fires, so does the
+   delivery's ready_deferred *)
+Definition step_rdy (ok : bool) (r : rdy) : rdy :=
+  match r with
+  | Pending g =>
+    let g' := gift_fire ok g in
+    match g_out g' with Some true => Ready | Some false => Broken | None => Pending g' end
+  | r => r
+  end.
 
-(* the third-party reference of call k resolves (ok) or cannot be resolved *)
+(* one third-party reference of call k resolves (ok) or cannot be resolved.  The delivery is either the one popped by
+   doNextCall (waiting): when its ready_deferred fires, _ready re-arms doNextCall and _doCall / callFailed run; or it is
+   still queued: then only its ready_deferred changes.  After Broker.finish the acknowledgement that
+   TheirReferenceUnslicer.ackGift sends through broker.remote_broker (None by then) raises, so a gift that resolves after
+   the loss counts as failed (ack_after_loss_fails, read from the source) *)
 Definition gift_ready (k : nat) (ok : bool) (s : state) : state :=
-  match find (fun c => cid c =? k) (waiting s) with
-  | Some c =>
-    finish_call c ok (mk (next_id s) (sendq s) (cur s) (wire s) (inq s)
-                         (filter (fun c' => negb (cid c' =? k)) (waiting s)) (evq s) (trace s))
+  let ok' := ok && negb (ack_after_loss_fails && lost s) in
+  match find (fun e => cid (fst e) =? k) (waiting s) with
+  | Some (c, g) =>
+    let g' := gift_fire ok' g in
+    match g_out g' with
+    | Some r =>
+      finish_call c r (mk (next_id s) (sendq s) (cur s) (wire s) (inq s)
+                          (filter (fun e => negb (cid (fst e) =? k)) (waiting s)) (evq s) (trace s) (lost s) (dropped s))
+    | None =>
+      mk (next_id s) (sendq s) (cur s) (wire s) (inq s)
+         (map (fun e => if cid (fst e) =? k then (fst e, g') else e) (waiting s)) (evq s) (trace s) (lost s) (dropped s)
+    end
   | None =>
     mk (next_id s) (sendq s) (cur s) (wire s)
-       (map (fun e => if (cid (fst e) =? k) && is_pending (snd e)
-                      then (fst e, if ok then Ready else Broken) else e) (inq s))
-       (waiting s) (evq s) (trace s)
+       (map (fun e => if cid (fst e) =? k then (fst e, step_rdy ok' (snd e)) else e) (inq s))
+       (waiting s) (evq s) (trace s) (lost s) (dropped s)
   end.
+
+(* Broker.connectionLost -> Broker.finish on the receiving side: disconnected = True; the queued deliveries are forgotten *)
+Definition disconnect (s : state) : state :=
+  if lost s then s else
+  if finish_clears_inq
+  then mk (next_id s) (sendq s) (cur s) (wire s) [] (waiting s) (evq s) (trace s) true (dropped s ++ map fst (inq s))
+  else mk (next_id s) (sendq s) (cur s) (wire s) (inq s) (waiting s) (evq s) (trace s) true (dropped s).
 
 Definition run_thunk (s : state) (t : thunk) : state := match t with TDoNext => do_next s end.
 
 (* _SimpleCallQueue._turn: take the current batch, run it *)
 Definition turn (s : state) : state :=
   let batch := match evq_iter with IterForward => evq s | IterReverse => rev (evq s) end in
-  fold_left run_thunk batch (mk (next_id s) (sendq s) (cur s) (wire s) (inq s) (waiting s) [] (trace s)).
+  fold_left run_thunk batch (mk (next_id s) (sendq s) (cur s) (wire s) (inq s) (waiting s) [] (trace s) (lost s) (dropped s)).
 
-Inductive op := Issue (stalls : nat) (f : fate) | StallRelease | Deliver | GiftReady (k : nat) (ok : bool) | Turn.
+Inductive op := Issue (stalls : nat) (f : fate) | StallRelease | Deliver | GiftReady (k : nat) (ok : bool) | Turn | Disconnect.
 
 Definition step (s : state) (o : op) : state :=
   match o with
@@ -159,6 +246,7 @@ Definition step (s : state) (o : op) : state :=
   | Deliver => deliver s
   | GiftReady k ok => gift_ready k ok s
   | Turn => turn s
+  | Disconnect => disconnect s
   end.
 
 Definition run (ops : list op) : state := fold_left step ops init.
@@ -179,14 +267,18 @@ Definition ids (l : list call) : list nat := map cid l.
 Definition cur_ids (s : state) : list nat := match cur s with Some (c, _) => [cid c] | None => [] end.
 Definition upstream (s : state) : list nat := ids (wire s) ++ cur_ids s ++ ids (sendq s).
 Definition inq_ids (s : state) : list nat := ids (map fst (inq s)).
-Definition pipeline (s : state) : list nat := ids (waiting s) ++ inq_ids s ++ upstream s.
+Definition wait_ids (s : state) : list nat := ids (map fst (waiting s)).
+Definition pipeline (s : state) : list nat := wait_ids s ++ inq_ids s ++ upstream s.
 
 Definition count_issues (ops : list op) : nat :=
   List.length (filter (fun o => match o with Issue _ _ => true | _ => false end) ops).
 
 (* what the correspondence compares with the real objects after every script step *)
+Definition gnet_obs (g : gnet) := ((g_nunref g, g_r2 g), (g_f2 g, g_left g)).
+Definition pending_obs (e : call * rdy) := match snd e with Pending g => [(cid (fst e), gnet_obs g)] | _ => [] end.
 Definition observe (s : state) :=
-  (ids (sendq s), cur_ids s, ids (wire s), (inq_ids s, negb (is_nil (waiting s)), entered s)).
+  (ids (sendq s), cur_ids s, ids (wire s), (inq_ids s, negb (is_nil (waiting s)), entered s),
+   (lost s, map (fun e => (cid (fst e), gnet_obs (snd e))) (waiting s) ++ flat_map pending_obs (inq s))).
 
 Fixpoint observe_steps (s : state) (steps : list (list op)) :=
   match steps with
